@@ -28,7 +28,7 @@ func (e *C13) Plan(tier string, seed uint64) int {
 	if tier == "thorough" {
 		return 250000 + 2*1100
 	}
-	return 12000 + 2*1100
+	return 30000 + 2*1100
 }
 func (e *C13) MinNontrivial(tier string) int { return 200 }
 
